@@ -24,10 +24,12 @@ def table_entries(mod, name):
     """(key, value-text, node) for the dict literal and every later `name[K] = V`."""
     out = []
     lit = mod.table(name)
-    if not isinstance(lit, ast.Dict):
-        raise AnalysisError("%s is not a dict literal" % name)
-    for k, v in zip(lit.keys, lit.values):
-        out.append((const_value(k), norm(v), k))
+    from ..flow import dict_entries
+    ent = dict_entries(lit)
+    if ent is None:
+        raise AnalysisError("%s is not a statically known table" % name)
+    for k, v in ent:
+        out.append((k, norm(v), v))
     for n in ast.walk(mod.tree):
         if isinstance(n, ast.Assign) and len(n.targets) == 1 and isinstance(n.targets[0], ast.Subscript) \
                 and isinstance(n.targets[0].value, ast.Name) and n.targets[0].value.id == name:
@@ -104,12 +106,12 @@ def rule_table(ctx):
     # readers of the table
     f = ctx.func(UTILS, "is_compression_format")
     rets = [s for s in f.body if isinstance(s, ast.Return)]
-    ok = len(f.body) == 1 and len(rets) == 1 and norm(rets[0].value) == "%s in _known_compressions" % f.params[0]
+    ok = _table_readers(ctx)[1]
     ctx.ob("is_compression_format", ok, "return %s" % (norm(rets[0].value) if rets else None),
            "membership of the argument in _known_compressions", node=f.node, func=f)
     g = ctx.func(UTILS, "get_compressor")
     rets = [s for s in g.body if isinstance(s, ast.Return)]
-    ok = len(g.body) == 1 and len(rets) == 1 and norm(rets[0].value) == "_known_compressions[%s]" % g.params[0]
+    ok = _table_readers(ctx)[0]
     ctx.ob("get_compressor", ok, "return %s" % (norm(rets[0].value) if rets else None),
            "the table entry of the argument", node=g.node, func=g)
     # branch literals of compress_as cover every key
@@ -261,17 +263,30 @@ def rule_cleanup(ctx):
            "compress_as are inside its with-block (removed on every exit)", node=g.node, func=g)
 
 
+def _table_readers(ctx):
+    """(get_compressor is the plain table look-up, is_compression_format is membership in the table) - in either of the
+    equivalent spellings: `x in table` / `try: get_compressor(x) except KeyError: return False; return True`"""
+    gc = ctx.func(UTILS, "get_compressor")
+    icf = ctx.func(UTILS, "is_compression_format")
+    grets = [s_ for s_ in gc.body if isinstance(s_, ast.Return)]
+    gc_ok = len(grets) == 1 and gc.body[-1] is grets[0] and all(isinstance(s_, (ast.Assign, ast.Return)) for s_ in gc.body) \
+        and norm(Flow(gc).resolve(grets[0].value, at=grets[0])) == "_known_compressions[%s]" % gc.params[0]
+    p = icf.params[0]
+    member = len(icf.body) == 1 and isinstance(icf.body[0], ast.Return) and norm(icf.body[0].value) == "%s in _known_compressions" % p
+    if not member and gc_ok and len(icf.body) == 2 and isinstance(icf.body[0], ast.Try) and isinstance(icf.body[1], ast.Return):
+        t = icf.body[0]
+        member = len(t.body) == 1 and isinstance(t.body[0], ast.Expr) and norm(t.body[0].value) == "get_compressor(%s)" % p \
+            and len(t.handlers) == 1 and t.handlers[0].type is not None and norm(t.handlers[0].type) == "KeyError" \
+            and [norm(s_) for s_ in t.handlers[0].body] == ["return False"] and not t.orelse and not t.finalbody and norm(icf.body[1]) == "return True"
+    return gc_ok, member
+
+
 def _nonraising_nodes(ctx, flow):
     """CFG nodes whose header provably cannot raise: constant arithmetic, and
     `get_compressor(x)` dominated by a passed `is_compression_format(x)` test."""
     cfg = flow.cfg
     out = set()
-    gc = ctx.func(UTILS, "get_compressor")
-    icf = ctx.func(UTILS, "is_compression_format")
-    table_ok = len(gc.body) == 1 and isinstance(gc.body[0], ast.Return) and \
-        norm(gc.body[0].value) == "_known_compressions[%s]" % gc.params[0] and \
-        len(icf.body) == 1 and isinstance(icf.body[0], ast.Return) and \
-        norm(icf.body[0].value) == "%s in _known_compressions" % icf.params[0]
+    table_ok = all(_table_readers(ctx))
     for st in flow.stmts:
         if not isinstance(st, ast.Assign):
             continue
@@ -389,6 +404,13 @@ def _path_eval(func, env, truth, stop_at=None):
             return ("opaque", e.id)
         if isinstance(e, ast.Constant):
             return ("const", e.value)
+        if isinstance(e, ast.IfExp):
+            tv = truth(norm(e.test))
+            if tv is True:
+                return ev(e.body)
+            if tv is False:
+                return ev(e.orelse)
+            return ("opaque", norm(e))
         if isinstance(e, ast.Call):
             d = dotted(e.func) or ""
             last = d.split(".")[-1]
@@ -559,12 +581,14 @@ def rule_writer(ctx):
     if calls:
         a = calls[0].args[0]
         fact = "is_compression_format(%s)" % norm(a)
-        if isinstance(a, ast.Name):
-            ds = fl.defs(a.id, calls[0])
-            ok = a.id == fmtp and "param" in ds
-            # and the same value is handed to compress_as
-            cas = calls_in(f.node, "compress_as")
-            ok = ok and bool(cas) and len(cas[0].args) > 1 and norm(cas[0].args[1]) == fmtp
+        given = {"%s is None" % fmtp: False}
+        tested = norm(fl.resolve_under(a, given, at=calls[0], stop=(f.params[0],)))
+        cas = calls_in(f.node, "compress_as")
+        if not cas:
+            raise AnalysisError("compress: compress_as(...) call not found")
+        from ..calls import bind_args
+        passed = bind_args(cas[0], ctx.func(UTILS, "compress_as")).get("fmt")
+        ok = tested == fmtp and passed is not None and norm(fl.resolve_under(passed, given, at=cas[0], stop=(f.params[0],))) == fmtp
     ctx.ob("compress.format", ok, fact, "the value tested and passed on is the `fmt` parameter (falling back to the suffix only when it is None): "
            "an explicit fmt= for a name without compression suffix still compresses", node=calls[0] if calls else f.node, func=f)
 
